@@ -116,6 +116,10 @@ func buildFromDefinition(def *configDefinition, lc *loaderContext) (cfg *Config,
 		}
 	}
 
+	if err = checkPipelineInclusion(cfg.Pipelines); err != nil {
+		return nil, err
+	}
+
 	cfg.Import = def.Import
 	cfg.Debug = def.Debug
 	cfg.Output = def.Output
